@@ -88,6 +88,46 @@ def rule_count_fields(prog, res):
                                 for m_, s_ in ((fc[1].args[1], fc[1].args[2]), (fc[1].args[2], fc[1].args[1])):
                                     if s_.op == "bin" and s_.args[0] == "Shl" and s_.args[2] is v and m_.op == "phi":
                                         okl = True
+        if not okl:
+            # the same loop over a half-open range: 0..maxid+1, or the occupied span of the mask  trailing_zeros(M) .. BITS - leading_zeros(M)
+            # (every set bit i of M satisfies tz(M) <= i < BITS - lz(M), so with the inner bit test the same ids are visited, ascending)
+            for b, a, t in puts:
+                v = a[1]
+                if not (v.op == "field" and v.args[0].op == "downcast" and v.args[0].args[0].op == "call" and v.args[0].args[0].args[0] == libmodel.RANGE_NEXT):
+                    continue
+                src = libmodel.iterator_source(v.args[0].args[0], fa)
+                if src is None:
+                    continue
+                y = src[0]
+                if y.op == "call" and y.args[0] == libmodel.INTO_ITER:
+                    y = y.args[1][0]
+                if not (y.op == "agg" and y.args[0] == "core::ops::Range"):
+                    continue
+                lo, hi = y.args[3]
+                masks = []
+                for gd in fa.guards(b):
+                    fc = fact_of_guard(gd)
+                    if fc[0] == "Ne" and is_const(fc[2]) and const_val(fc[2]) == 0 and fc[1].op == "bin" and fc[1].args[0] == "BitAnd":
+                        for m_, s_ in ((fc[1].args[1], fc[1].args[2]), (fc[1].args[2], fc[1].args[1])):
+                            if s_.op == "bin" and s_.args[0] == "Shl" and s_.args[2] is v and m_.op == "phi":
+                                masks.append(m_)
+                if len(masks) != 1:
+                    continue
+                M = masks[0]
+
+                def strip_cast(z):
+                    while z.op == "cast":
+                        z = z.args[1]
+                    return z
+                lo_, hi_ = strip_cast(lo), strip_cast(hi)
+                full = is_const(lo_) and const_val(lo_) == 0 and is_const(hi_) and const_val(hi_) == maxid + 1
+                span = lo_.op == "call" and lo_.args[0].endswith(">::trailing_zeros") and lo_.args[1][0] is M \
+                    and hi_.op == "bin" and hi_.args[0] == "Sub" and is_const(hi_.args[1]) and const_val(hi_.args[1]) == maxid + 1 \
+                    and hi_.args[2].op == "call" and hi_.args[2].args[0].endswith(">::leading_zeros") and hi_.args[2].args[1][0] is M \
+                    and (ty_of(M) or {}).get("bits") == maxid + 1
+                if full or span:
+                    sterm = v
+                    okl = True
         res.ob("Q-mask", "%s | groups are written for s = 0..=%d ascending, exactly for the satellites present" % (num, maxid), okl, "", f.loc)
         # Q-pred: the counted predicate equals the written predicate
         _pred_rule(prog, res, num, mod, f, fa, sterm)
